@@ -918,4 +918,68 @@ pub proof fn lemma_message_roundtrip(h: crate::IppHeader, gs: Seq<IppAttributeGr
     lemma_attrs_roundtrip(gs, b, ops, others, payload);
 }
 
+
+// ------------------------------------------------------------------ the abstraction of real values is canonical
+
+/// members listed by `coll_of` rebuild the map they were listed from
+pub proof fn lemma_members_map_prefix(mp: Map<String, AVal>, n: nat)
+    requires n <= bt_order(mp.dom()).len(),
+    ensures
+        ({ let members = coll_of(mp)->Coll_members;
+           let ord = bt_order(mp.dom());
+           &&& forall|k: String| members_map(members, n).contains_key(k) <==> exists|i: int| 0 <= i < n && ord[i] == k
+           &&& forall|k: String| #[trigger] members_map(members, n).contains_key(k) ==> members_map(members, n)[k] == mp[k] }),
+    decreases n,
+{
+    let members = coll_of(mp)->Coll_members;
+    let ord = bt_order(mp.dom());
+    axiom_bt_order_set(mp.dom());
+    if n > 0 {
+        lemma_members_map_prefix(mp, (n - 1) as nat);
+        let p = members_map(members, (n - 1) as nat);
+        let kn = ord[n - 1];
+        assert(ord.to_set().contains(kn));
+        assert(mp.contains_key(kn));
+        assert(members[n - 1] == (kn, mp[kn]));
+        assert forall|k: String| members_map(members, n).contains_key(k) implies exists|i: int| 0 <= i < n && ord[i] == k by {
+            if k != kn {
+                assert(p.contains_key(k));
+                let i = choose|i: int| 0 <= i < n - 1 && ord[i] == k;
+                assert(ord[i] == k);
+            }
+        }
+        assert forall|k: String| (exists|i: int| 0 <= i < n && ord[i] == k) implies members_map(members, n).contains_key(k) by {
+            let i = choose|i: int| 0 <= i < n && ord[i] == k;
+            if i < n - 1 {
+                assert(p.contains_key(k));
+            }
+        }
+    }
+}
+
+/// every collection value produced by `aval` is in the canonical form `dom_ok` asks for
+pub proof fn lemma_coll_of_canonical(mp: Map<String, AVal>)
+    ensures
+        ({ let members = coll_of(mp)->Coll_members;
+           &&& members_map(members, members.len()) == mp
+           &&& coll_of(mp) == coll_of(members_map(members, members.len()))
+           &&& forall|i: int, j: int| 0 <= i < j < members.len() ==> (#[trigger] members[i]).0 != (#[trigger] members[j]).0 }),
+{
+    let members = coll_of(mp)->Coll_members;
+    let ord = bt_order(mp.dom());
+    axiom_bt_order_set(mp.dom());
+    lemma_members_map_prefix(mp, ord.len());
+    let mm = members_map(members, members.len());
+    assert forall|k: String| mm.contains_key(k) <==> mp.contains_key(k) by {
+        if mp.contains_key(k) {
+            assert(ord.to_set().contains(k));
+        }
+        if mm.contains_key(k) {
+            let i = choose|i: int| 0 <= i < ord.len() && ord[i] == k;
+            assert(ord.to_set().contains(ord[i]));
+        }
+    }
+    assert(mm =~= mp);
+}
+
 } // verus!
